@@ -13,7 +13,7 @@ EXPLANATION = ("Deductive: the token languages the printer must hit (count, isot
 
 
 def units(tier):
-    return ([G.L_TOKENS] + G.U_STR_ATOMS) + [K.L_ATOM_IDENTITY]
+    return ([G.L_TOKENS] + G.U_STR_ATOMS) + [K.L_ATOM_IDENTITY] + G.U_PARSE_FORMULA
 
 
 def runner_tasks(tier):
